@@ -1042,6 +1042,11 @@ package engine
 
 //@ ---------------------------------------------------------------- placeholders: Go values as terms (C15)
 
+//@ extern fmt.Errorf
+//@   pure
+//@   allocates
+//@   ensures result != nil
+
 //@ extern reflect.Value.Kind
 //@   pure
 //@   deterministic
